@@ -66,7 +66,19 @@ SetCur(c, key, val) == [c EXCEPT !.fr[Len(c.fr)] = DSet(@, key, val)]
 Push(c) == LET f == Cur(c) IN
     [c EXCEPT !.fr = Append(@, VDict(<<"_index">>, <<IF DHas(f, "_index") THEN DGet(f, "_index") ELSE VNone>>))]
 Pop(c) == [c EXCEPT !.fr = Front(@)]
-TopCtx(kw, mode) == [fr |-> <<kw>>, p |-> 1, mode |-> mode]
+TopCtx(kw, mode) == [fr |-> <<kw>>, p |-> 1, mode |-> mode, defs |-> <<>>]
+\* recursive definitions (LazyBound): Rec binds a name to its body for everything below it; the binding is not a construct (no events)
+WithDef(c, name, node) == [c EXCEPT !.defs = <<[name |-> name, node |-> node]>> \o @]
+HasDef(c, name) == \E i \in 1..Len(c.defs) : c.defs[i].name = name
+DefOf(c, name) == c.defs[CHOOSE i \in 1..Len(c.defs) : c.defs[i].name = name /\ \A j \in 1..(i - 1) : c.defs[j].name # name].node
+\* Python indexing and slicing of a list of length len (1-based results; 0 = IndexError)
+PyIndex(i, len) == IF i >= 0 THEN (IF i < len THEN i + 1 ELSE 0) ELSE (IF len + i >= 0 THEN len + i + 1 ELSE 0)
+\* bounds of lst[start:stop] for start, stop none or >= 0: first index (1-based) and one past the last
+SlLo(start, len) == IF start.t = "none" THEN 1 ELSE Min(AsInt(start), len) + 1
+SlHi(stop, len) == IF stop.t = "none" THEN len + 1 ELSE Min(AsInt(stop), len) + 1
+SlIdx(start, stop, step, len) == LET lo == SlLo(start, len)  hi == SlHi(stop, len) IN
+    IF hi <= lo THEN <<>> ELSE [j \in 1..(((hi - lo - 1) \div step) + 1) |-> lo + (j - 1) * step]
+SliceModelled(n) == n.step >= 1 /\ (n.start.t = "none" \/ (n.start.t = "int" /\ ~n.start.neg)) /\ (n.stop.t = "none" \/ (n.stop.t = "int" /\ ~n.stop.neg))
 PublicOf(d) == LET idx == SelectSeq([i \in 1..Len(d.k) |-> i], LAMBDA i : ~IsPrivateKey(d.k[i])) IN
     VDict([j \in 1..Len(idx) |-> d.k[idx[j]]], [j \in 1..Len(idx) |-> d.v[idx[j]]])
 
@@ -268,7 +280,7 @@ ZB(n, c) ==
       [] n.k = "Invalid" -> ZErr(n.err, <<>>)
       [] "sub" \in DOMAIN n -> Z(n.sub, c)       \* Subconstruct default (Renamed, Const, adapters, RawCopy, Process*, Lazy ...)
       [] OTHER -> ZErr(OutOfModel, <<>>)
-Z(n, c) == IF IsMacro(n) THEN Z(Expand(n), c) ELSE ZWrap(n, ZB(n, c))
+Z(n, c) == IF IsMacro(n) THEN Z(Expand(n), c) ELSE IF n.k = "Rec" THEN Z(n.sub, WithDef(c, n.name, n.sub)) ELSE ZWrap(n, ZB(n, c))
 ZLoop(subs, i, c, acc, ev) ==
     IF i > Len(subs) THEN ZOk(acc, ev)
     ELSE LET z == Z(subs[i], c) IN
@@ -286,7 +298,9 @@ RECURSIVE P(_, _, _), PB(_, _, _), PStructLoop(_, _, _, _, _, _), PSeqLoop(_, _,
           NTScan(_, _, _, _, _)
 Fuel == 40          \* iterations after which a repeater is declared divergent (GreedyRange(Pass) ...)
 
-P(n, s, c) == IF IsMacro(n) THEN P(Expand(n), s, c) ELSE Wrap(n, "parse", s, VNone, PB(n, s, c))
+P(n, s, c) == IF IsMacro(n) THEN P(Expand(n), s, c)
+              ELSE IF n.k = "Rec" THEN P(n.sub, s, WithDef(c, n.name, n.sub))
+              ELSE Wrap(n, "parse", s, VNone, PB(n, s, c))
 
 \* index of the Switch case selected by key (0 = default)
 SwitchIdx(n, key) == CHOOSE i \in 0..Len(n.ck) :
@@ -586,6 +600,19 @@ PB(n, s, c) ==
                     LET z == ZIn(n.sub, r.s, r.c) IN
                     IF z.ok \/ z.err = "SizeofError" THEN ROk(r.v, r.s, r.c, z.ev) ELSE [z EXCEPT !.v = VNone]
                 ELSE ROk(r.v, r.s, r.c, <<>>))
+      [] n.k = "LazyBound" ->     \* the construct the name stands for, looked up when it is reached
+            IF HasDef(c, n.ref) THEN P(DefOf(c, n.ref), s, c) ELSE RErr(OutOfModel, s, c, <<>>)
+      [] n.k = "Indexing" ->
+            Then(P(n.sub, s, c), LAMBDA r :
+                IF r.v.t # "list" THEN RErr(OutOfModel, r.s, r.c, <<>>)
+                ELSE LET i == PyIndex(AsInt(n.index), Len(r.v.xs)) IN
+                     IF i = 0 THEN RErr("RangeError", r.s, r.c, <<>>) ELSE ROk(r.v.xs[i], r.s, r.c, <<>>))
+      [] n.k = "Slicing" ->
+            IF ~SliceModelled(n) THEN RErr(OutOfModel, s, c, <<>>)
+            ELSE Then(P(n.sub, s, c), LAMBDA r :
+                IF r.v.t # "list" THEN RErr(OutOfModel, r.s, r.c, <<>>)
+                ELSE LET idx == SlIdx(n.start, n.stop, n.step, Len(r.v.xs)) IN
+                     ROk(VList([j \in 1..Len(idx) |-> r.v.xs[idx[j]]]), r.s, r.c, <<>>))
       [] n.k = "Invalid" -> RErr(OutOfModel, s, c, <<>>)
       [] OTHER -> RErr(OutOfModel, s, c, <<>>)
 
@@ -724,7 +751,9 @@ RECURSIVE B(_, _, _, _), BB(_, _, _, _), BStructLoop(_, _, _, _, _, _), BSeqLoop
           BArrayLoop(_, _, _, _, _, _, _), BGreedyLoop(_, _, _, _, _, _, _), BRepeatLoop(_, _, _, _, _, _, _, _),
           BSelectLoop(_, _, _, _, _, _), BUnionLoop(_, _, _, _, _, _), BFocusedLoop(_, _, _, _, _, _, _, _, _)
 
-B(n, obj, s, c) == IF IsMacro(n) THEN B(Expand(n), obj, s, c) ELSE Wrap(n, "build", s, obj, BB(n, obj, s, c))
+B(n, obj, s, c) == IF IsMacro(n) THEN B(Expand(n), obj, s, c)
+                   ELSE IF n.k = "Rec" THEN B(n.sub, obj, s, WithDef(c, n.name, n.sub))
+                   ELSE Wrap(n, "build", s, obj, BB(n, obj, s, c))
 Fresh == Mem(<<>>, 0, 0)
 RejOom == [ok |-> FALSE, v |-> <<>>, oom |-> TRUE]
 TypeErrOr(v) == IF v.t \in {"opaque", "frame", "rat"} THEN OutOfModel ELSE "TypeError"
@@ -1037,6 +1066,31 @@ BB(n, obj, s, c) ==
                ELSE IF ~good THEN RErr("ValidationError", s, c, <<>>)
                ELSE Then(B(n.sub, obj, s, c), LAMBDA r : ROk(obj, r.s, r.c, <<>>))
       [] n.k \in {"Hex", "HexDump"} -> Then(B(n.sub, obj, s, c), LAMBDA r : ROk(obj, r.s, r.c, <<>>))
+      [] n.k = "LazyBound" ->
+            IF HasDef(c, n.ref) THEN B(DefOf(c, n.ref), obj, s, c) ELSE RErr(OutOfModel, s, c, <<>>)
+      [] n.k = "Indexing" ->      \* a list of `count` fillers with the value at `index`
+            LET cnt == IF AsInt(n.count) < 0 THEN 0 ELSE AsInt(n.count)
+                i == PyIndex(AsInt(n.index), cnt)
+            IN IF cnt >= Lim THEN RErr(OutOfModel, s, c, <<>>)
+               ELSE IF i = 0 THEN RErr("IndexError", s, c, <<>>)
+               ELSE Then(B(n.sub, VList([j \in 1..cnt |-> IF j = i THEN obj ELSE n.empty]), s, c), LAMBDA r : ROk(obj, r.s, r.c, <<>>))
+      [] n.k = "Slicing" ->       \* a list of `count` fillers with the slice replaced by the values (a plain slice may change the length)
+            IF ~SliceModelled(n) THEN RErr(OutOfModel, s, c, <<>>)
+            ELSE IF n.start.t = "none" THEN Then(B(n.sub, obj, s, c), LAMBDA r : ROk(obj, r.s, r.c, <<>>))
+            ELSE LET cnt == IF AsInt(n.count) < 0 THEN 0 ELSE AsInt(n.count)
+                     out == [j \in 1..cnt |-> n.empty]
+                 IN IF cnt >= Lim THEN RErr(OutOfModel, s, c, <<>>)
+                    ELSE IF obj.t # "list" THEN RErr(IF obj.t \in {"none", "int", "bool", "float"} THEN "TypeError" ELSE OutOfModel, s, c, <<>>)
+                    ELSE IF n.step = 1 THEN
+                         LET lo == SlLo(n.start, cnt)
+                             hi == IF SlHi(n.stop, cnt) < lo THEN lo ELSE SlHi(n.stop, cnt)
+                             lst == SubSeq(out, 1, lo - 1) \o obj.xs \o SubSeq(out, hi, cnt)
+                         IN Then(B(n.sub, VList(lst), s, c), LAMBDA r : ROk(obj, r.s, r.c, <<>>))
+                    ELSE LET idx == SlIdx(n.start, n.stop, n.step, cnt) IN
+                         IF Len(idx) # Len(obj.xs) THEN RErr("ValueError", s, c, <<>>)
+                         ELSE LET lst == [j \in 1..cnt |-> IF \E q \in 1..Len(idx) : idx[q] = j
+                                                            THEN obj.xs[CHOOSE q \in 1..Len(idx) : idx[q] = j] ELSE out[j]]
+                              IN Then(B(n.sub, VList(lst), s, c), LAMBDA r : ROk(obj, r.s, r.c, <<>>))
       [] OTHER -> RErr(OutOfModel, s, c, <<>>)
 
 BStructLoop(subs, i, obj, s, c, ev) ==
